@@ -1,0 +1,41 @@
+//go:build verif
+
+package parser
+
+import "strings"
+
+// Read-only accessors used by the /verif harness of property C20
+// (serialize / re-tokenize round trip). Only compiled with -tags verif.
+
+// VerifC20HashIsID reports the "id" type flag of a hash token.
+func VerifC20HashIsID(h Hash) bool { return h.isIdentifier() }
+
+// VerifC20StringIsError reports whether the string token was ended by EOF.
+func VerifC20StringIsError(s String) bool { return s.isError() }
+
+// VerifC20URLIsError reports whether the url token was ended by EOF.
+func VerifC20URLIsError(u URL) bool { return u.flag&(isErrorInURL|isErrorInString) != 0 }
+
+// VerifC20ParseErrorKind returns the kind byte of a parse error.
+func VerifC20ParseErrorKind(p ParseError) byte { return p.kind }
+
+// VerifC20SerializeCompound serializes a rule or a declaration
+// (the serializeTo methods of compounds are not reachable from Serialize).
+func VerifC20SerializeCompound(c Compound) string {
+	var w strings.Builder
+	switch c := c.(type) {
+	case QualifiedRule:
+		c.serializeTo(&w)
+	case AtRule:
+		c.serializeTo(&w)
+	case Declaration:
+		c.serializeTo(&w)
+	case ParseError:
+		c.serializeTo(&w)
+	case Whitespace:
+		c.serializeTo(&w)
+	case Comment:
+		c.serializeTo(&w)
+	}
+	return w.String()
+}
